@@ -20,6 +20,7 @@ Count(s, x) == Cardinality({i \in 1..Len(s) : s[i] = x})
 BagEq(s, t) == Len(s) = Len(t) /\ \A x \in ToSet(s) \cup ToSet(t) : Count(s, x) = Count(t, x)
 V1(ps, q) == [ps |-> ps, q |-> q]
 
+CapOps   == {"reserve", "reserve_exact", "shrink_to_fit", "shrink_to", "recreate"}
 ElemOps  == {"push", "insert", "pop_begin", "remove_begin", "swap_remove_begin", "consume", "hmutate", "tpop",
              "tremove", "tswap_remove", "clear", "get", "mutate", "ext_drop"}
 RangeOps == {"drain_begin", "splice_begin", "next", "item_consume", "range_drop", "range_forget"}
@@ -27,7 +28,8 @@ IterOps  == {"iter_begin", "iter_next", "iter_clone", "iter_end"}
 
 IsForget(a) == a.op = "range_forget" \/ (a.op \in {"consume", "next", "item_consume"} /\ a.sink.k = "forget")
 (* the property a plain behavioural mismatch of this action counts against *)
-PropOf(a) == IF a.op \in ElemOps THEN <<"C01">> ELSE IF a.op \in RangeOps THEN <<"C02">> ELSE <<"C14">>
+PropOf(a) == IF a.op \in ElemOps THEN <<"C01">> ELSE IF a.op \in RangeOps THEN <<"C02">>
+             ELSE IF a.op \in CapOps THEN <<"C10">> ELSE <<"C14">>
 PropsOf(a, lat) ==
   PropOf(a) \o (IF IsForget(a) THEN <<"C07">> ELSE <<>>) \o (IF lat = "panic" THEN <<"C06">> ELSE <<>>)
   \o (IF Cfg.fixed THEN <<"C11">> ELSE <<>>) \o (IF ~Cfg.alloc THEN <<"C19">> ELSE <<>>)
@@ -63,24 +65,53 @@ ObsWF(st0, post) ==
   \/ /\ NoDup(ids)
      /\ \A i \in 1..Len(ids) : ids[i] >= 0 /\ ids[i] \notin st0.leaked
 
-(* capacity bookkeeping of one vector across a step: may this step have changed the storage of vector w? *)
-MayGrow(a, w) ==
-  \/ a.op \in {"push", "insert", "range_drop"} /\ a.v = w
-  \/ a.op \in {"consume", "next", "item_consume"} /\ a.sink.k \in {"push", "insert"} /\ a.sink.to = w
+(* ---- storage: capacity, allocator protocol, block geometry (C05 C10 C11 C12 C18) ---- *)
+(* a memory event is <<kind, _, a, b, c, d>>; kinds: 1 alloc 2 dealloc 3 realloc 4 bad free/realloc layout        *)
+(* 5 invalid layout reached the allocator 6 canary damaged 10 backend build 11 backend resize 12 expand 13 drop   *)
+MemKinds(mem, K) == {j \in 1..Len(mem) : mem[j][1] \in K}
+CapEvents(mem) == MemKinds(mem, {1, 2, 3}) \cup {j \in MemKinds(mem, {11}) : mem[j][3] # mem[j][4]}
+ProtoViol(mem, canary) ==
+     (IF MemKinds(mem, {4}) # {} THEN {V1(<<"C18", "C05">>, "free_presents_live_layout")} ELSE {})
+  \cup (IF MemKinds(mem, {5}) # {} THEN {V1(<<"C18">>, "no_invalid_layout_reaches_allocator")} ELSE {})
+  \cup (IF MemKinds(mem, {6}) # {} \/ ~canary THEN {V1(<<"C05", "C18">>, "guard_intact")} ELSE {})
+  \cup (IF Cfg.backend \in {"stack", "stackn"} /\ MemKinds(mem, {1, 2, 3}) # {} THEN {V1(<<"C11", "C19">>, "no_heap_alloc")} ELSE {})
 
-CapViol(stb, a, post) ==
+(* the explicit capacity constraint of the step for vector w, or the default derived from the lengths:              *)
+(* no growth needed => capacity, block and allocator untouched; growth needed => capacity' >= new length, >= old   *)
+CapOf(x, w) == LET c == {j \in 1..Len(x.capc) : x.capc[j].v = w} IN
+               IF c = {} THEN [v |-> w, lo |-> -3, hi |-> -3] ELSE x.capc[CHOOSE j \in c : TRUE]
+
+CapViol(stb, x, ev) ==
+  LET post == ev.post IN
   UNION {
-    LET o == post[w]  Vb == stb.v[w] IN
-    IF Excl(o.hk) THEN {}
+    LET o == post[w]  Vb == stb.v[w]  c == CapOf(x, w)
+        newlen == Len(x.st.v[w].el)
+        same == IF c.lo = -3 THEN newlen <= Vb.cap ELSE c.lo = -2
+        lo   == IF c.lo = -3 THEN Max2(newlen, Vb.cap) ELSE c.lo
+        hi   == IF c.lo = -3 THEN -1 ELSE c.hi
+    IN
+    IF Excl(o.hk) \/ Excl(Vb.h.k) THEN {}
     ELSE (IF o.len > o.cap THEN {V1(<<"C10">>, "len_le_cap")} ELSE {})
          \cup (IF Cfg.fixed /\ o.cap # Cfg.fcap THEN {V1(<<"C11">>, "capacity_formula")} ELSE {})
          \cup (IF ~o.al THEN {V1(<<"C12">>, "base_aligned")} ELSE {})
          \cup (IF ~o.vw THEN {V1(<<"C13", "C12">>, "views_agree")} ELSE {})
-         \cup (IF ~Excl(Vb.h.k) /\ ~MayGrow(a, w) /\ (o.cap # Vb.cap \/ o.mv)
-               THEN {V1(<<"C10", "C05">>, "noop_unchanged")} ELSE {})
-         \cup (IF ~Excl(Vb.h.k) /\ MayGrow(a, w) /\ o.cap < Vb.cap
-               THEN {V1(<<"C10">>, "grow_never_shrinks")} ELSE {})
+         \cup (IF same /\ (o.cap # Vb.cap \/ o.mv) THEN {V1(<<"C10", "C05">>, "noop_unchanged")} ELSE {})
+         \cup (IF ~same /\ o.cap < lo THEN {V1(<<"C10">>, "capacity_ge")} ELSE {})
+         \cup (IF ~same /\ hi >= 0 /\ o.cap > hi THEN {V1(<<"C10">>, IF hi = lo THEN "heap_shrink_exact" ELSE "shrink_never_grows")} ELSE {})
+         \cup (IF Cfg.backend \in {"heap", "fence"}
+               THEN (IF o.cap * Cfg.esz = 0
+                     THEN (IF o.blk[1] # 0 THEN {V1(<<"C18">>, "none_when_zero")} ELSE {})
+                     ELSE (IF o.blk[1] # 1 \/ (o.cap < 100000 /\ o.blk[2] # o.cap * Cfg.esz) THEN {V1(<<"C18", "C05">>, "block_bytes_eq_cap_x_size")} ELSE {})
+                          \cup (IF o.blk[1] = 1 /\ o.blk[3] # Cfg.ealign THEN {V1(<<"C18", "C12">>, "block_align")} ELSE {}))
+               ELSE {})
     : w \in Vecs }
+  \cup (IF (\A w \in Vecs : ~Excl(post[w].hk) /\ ~Excl(stb.v[w].h.k) /\
+                  LET c == CapOf(x, w) IN (IF c.lo = -3 THEN Len(x.st.v[w].el) <= stb.v[w].cap ELSE c.lo = -2))
+           /\ CapEvents(ev.mem) # {}
+        THEN {V1(<<"C10", "C18">>, "no_allocator_traffic_when_capacity_suffices")} ELSE {})
+  \cup (IF Cfg.backend \in {"heap", "fence"} /\ (\A w \in Vecs : ~Excl(post[w].hk))
+           /\ post.nblk # Cardinality({w \in Vecs : post[w].cap * Cfg.esz # 0})
+        THEN {V1(<<"C18">>, "at_most_one_block")} ELSE {})
 
 AdoptCaps(s2, post) ==
   [s2 EXCEPT !.v = [w \in Vecs |-> IF Excl(post[w].hk) THEN s2.v[w] ELSE [s2.v[w] EXCEPT !.cap = post[w].cap]]]
@@ -140,8 +171,20 @@ DropLive(stb, ev) ==
   (\A j \in 1..Len(ev.drops) :
       /\ ev.drops[j] \in KnownIds(stb, ev)
       /\ Count(ev.drops, ev.drops[j]) = 1)
+TdMemViol(ev) ==
+  IF ev.td.skip THEN {}
+  ELSE ProtoViol(ev.td.mem, TRUE)
+       \cup (IF ev.td.nblk # 0 THEN {V1(<<"C18", "C05">>, "all_returned")} ELSE {})
+       \cup (IF Cfg.backend = "fence" /\ Cardinality(MemKinds(ev.td.mem, {13})) # Cardinality(Vecs)
+             THEN {V1(<<"C05">>, "released_once")} ELSE {})
+
 TdViol(s2, ev, extra) ==
-  IF ev.td.skip \/ ~Cfg.drop THEN {}
+  IF ev.td.skip THEN {}
+  ELSE IF ev.td.panic
+  THEN (* a destructor panicked during teardown: only a splice beyond a fixed capacity may do that (A4) *)
+       IF Cfg.fixed /\ (\E w \in Vecs : s2.v[w].h.k = "range" /\ s2.v[w].h.op = "splice") THEN {}
+       ELSE {V1(<<"C03">> \o extra, "teardown_panics")}
+  ELSE IF ~Cfg.drop THEN {}
   ELSE IF ~Cfg.ids
   THEN (* zero-sized values: accounting by count (A9) *)
        IF s2.leaked = {} /\ (ev.td.zst # 0 \/ Len(ev.td.drops) # Len(AllElems(s2)))
@@ -166,7 +209,7 @@ JudgeFault(stb, ev) ==
           \cup (IF ~dl THEN {V1(P \o <<"C03">>, "no_double_drop")} ELSE {})
       diverged == ~ev.fired \/ ~hkOk \/ ~wf \/ ~pOk
       s2 == IF diverged THEN stb ELSE AdoptAfterPanic(stb, x, ev)
-  IN [st |-> s2, bad |-> diverged, viol |-> viol0 \cup (IF diverged THEN {} ELSE TdViol(s2, ev, P))]
+  IN [st |-> s2, bad |-> diverged, viol |-> viol0 \cup (IF diverged THEN {} ELSE TdViol(s2, ev, P)) \cup ProtoViol(ev.mem, post.canary) \cup TdMemViol(ev)]
 
 Judge(stb, ev) ==
   LET a == ev.act IN
@@ -205,9 +248,9 @@ Judge(stb, ev) ==
             ELSE IF x.lat = "exact" THEN AdoptCaps(x.st, post)
             ELSE IF x.lat = "panic" THEN AdoptAfterPanic(stb, x, ev)
             ELSE AdoptAll([x.st EXCEPT !.leaked = stb.leaked], post, gone \ ToSet(ev.drops))
-      capv == IF diverged THEN {} ELSE CapViol(stb, a, post)
+      capv == (IF diverged THEN {} ELSE CapViol(stb, x, ev)) \cup ProtoViol(ev.mem, post.canary)
       tdv == IF diverged THEN {} ELSE TdViol(s2, ev, (IF IsForget(a) THEN <<"C07">> ELSE <<>>) \o (IF "dyn" \in DOMAIN ev THEN <<"C06">> ELSE <<>>))
-  IN [st |-> s2, bad |-> diverged, viol |-> viol0 \cup capv \cup tdv]
+  IN [st |-> s2, bad |-> diverged, viol |-> viol0 \cup capv \cup tdv \cup TdMemViol(ev)]
 
 ---------------------------------------------------------------------------
 TInit == /\ n = 1
@@ -226,7 +269,12 @@ TNext == \E j \in 1..Len(Rec[n].kids) :
 TSpec == TInit /\ [][TNext]_tvars
 
 (* the initial observation: fixed capacities follow the formula, storage is aligned *)
-InitViol == CapViol(Init0, [op |-> "new", v |-> ""], Rec[1].init)
+InitViol == CapViol(Init0, Out(Init0, "ok", <<>>, <<>>), [post |-> Rec[1].init, mem |-> Rec[1].init.mem])
+            \cup ProtoViol(Rec[1].init.mem, Rec[1].init.canary)
+            \cup (IF Cfg.backend = "fence" /\
+                     (Len(Rec[1].init.mem) # Cardinality(Vecs) \/
+                      \E j \in 1..Len(Rec[1].init.mem) : Rec[1].init.mem[j][1] # 10 \/ Rec[1].init.mem[j][3] # Cfg.esz \/ Rec[1].init.mem[j][4] # Cfg.ealign)
+                  THEN {V1(<<"C05">>, "built_once_with_layout")} ELSE {})
 InitOk == InitViol = {} \/ PrintT(ToJson([node |-> 0, viol |-> SetToSeq(InitViol)]))
 ASSUME InitOk
 =============================================================================
